@@ -103,7 +103,7 @@ func (p *FloatingIPPlugin) getSubnet(pod *corev1.Pod) (sets.String, error) {
 				unallocatedIPRange = append(unallocatedIPRange, ipranges[i])
 			} else {
 				ips = append(ips, ipInfos[i].IP.String())
-				if allocatedSubnets.Len() == 0 {
+				if len(ips) == 1 {
 					allocatedSubnets.Insert(ipInfos[i].NodeSubnets.UnsortedList()...)
 				} else {
 					allocatedSubnets = allocatedSubnets.Intersection(ipInfos[i].NodeSubnets)
@@ -140,7 +140,8 @@ func (p *FloatingIPPlugin) getSubnet(pod *corev1.Pod) (sets.String, error) {
 	if err != nil {
 		return nil, err
 	}
-	if allocatedSubnets.Len() > 0 {
+	if len(ipranges) != len(cniArgs.RequestIPRange) {
+		// some of the requested ranges already have an allocated ip, the node must be able to route them as well
 		subnetSet = subnetSet.Intersection(allocatedSubnets)
 	}
 	if (reserve || isPoolSizeDefined) && subnetSet.Len() > 0 {
